@@ -4,7 +4,6 @@ cd "$(dirname "$0")" || exit 2
 export GOFLAGS=-mod=mod GOPROXY=off GOSUMDB=off GOTOOLCHAIN=local
 set -e
 mkdir -p bin evidence replays
-cp /repo/go.sum go.sum 2>/dev/null || true
 go build -o bin/vrun ./cmd/vrun
 go build -tags verif -o bin/vmon ./cmd/vmon
 go build -tags verif -race -o bin/vmon-race ./cmd/vmon
